@@ -37,6 +37,23 @@ var (
 	ErrKVHashFnChanged   = errorDef("chord/kv: calculated hash is different from storage", false)
 )
 
+// ErrorMetaKey is the twirp metadata key carrying ErrorIdentity across RPC.
+const ErrorMetaKey = "chord_error"
+
+const deadlineIdentity = "context.DeadlineExceeded"
+
+// ErrorIdentity names the chord error (or deadline) that err is or wraps, or "".
+func ErrorIdentity(err error) string {
+	var ce *Error
+	if errors.As(err, &ce) {
+		return ce.msg
+	}
+	if errors.Is(err, context.DeadlineExceeded) {
+		return deadlineIdentity
+	}
+	return ""
+}
+
 func ErrorIsRetryable(err error) bool {
 	for _, e := range retryableErrs {
 		if errors.Is(err, e) {
@@ -60,6 +77,13 @@ func ErrorMapper(err error) error {
 
 	if twirpErr, ok := err.(twirp.Error); ok {
 		srcErr = twirpErr.Msg()
+		// the sender names the chord error it returned (possibly wrapped) explicitly
+		switch id := twirpErr.Meta(ErrorMetaKey); {
+		case id == deadlineIdentity:
+			return context.DeadlineExceeded
+		case id != "":
+			srcErr = id
+		}
 	}
 
 	if mapped, ok := errorStrMap[srcErr]; ok {
